@@ -10,6 +10,7 @@ unused_desc<...> error flag.  The words of the description blocks are tracked th
 """
 import re
 import warnings
+import zlib
 
 from ..core import Acc, import_pytrs
 from .. import gen, soup
@@ -107,7 +108,7 @@ def survives(d, word):
 def judge(acc, seed_n, vname, toks, pos, marker, mode, seen):
     text = ''.join(toks[:pos]) + ' ' + marker + ' ' + ''.join(toks[pos:])
     key = f"{mode}|{text}"
-    if key in seen:
+    if key in seen or (seen.part is not None and zlib.crc32(key.encode()) % 4 != seen.part):
         return
     seen.add(key)
     case = {'seed': seed_n, 'variant': vname, 'pos': pos, 'marker': marker, 'mode': mode, 'text': text}
@@ -137,7 +138,7 @@ def judge(acc, seed_n, vname, toks, pos, marker, mode, seen):
 def judge_words(acc, seed_n, vname, toks, mode, seen):
     text = ''.join(toks)
     key = f"words|{mode}|{text}"
-    if key in seen:
+    if key in seen or (seen.part is not None and zlib.crc32(key.encode()) % 4 != seen.part):
         return
     seen.add(key)
     case = {'seed': seed_n, 'variant': vname, 'mode': mode, 'text': text, 'words': True}
@@ -167,14 +168,22 @@ def judge_words(acc, seed_n, vname, toks, mode, seen):
         acc.guard('block_words_tracked')
 
 
+class Seen(set):
+    def __init__(self, part):
+        super().__init__()
+        self.part = part
+
+
+class SeenAll(set):
+    part = property(lambda self: None)
+
+
 def run_unit(unit, tier):
     acc = Acc()
     seed = all_seeds()[unit['seed']]
-    seen = set()
+    seen = Seen(unit['half'])
     vs = variants(seed)
     for vi, (vname, toks) in enumerate(vs):
-        if vi % 4 != unit['half']:
-            continue
         bounds = [i for i in range(len(toks) + 1) if i == 0 or i == len(toks) or toks[i - 1].isspace() or toks[i].isspace()
                   or not toks[i][0].isalnum() or not toks[i - 1][-1].isalnum()]
         for mode in MODES:
@@ -190,9 +199,9 @@ def replay(case):
     seed = all_seeds()[case['seed']]
     toks = dict(variants(seed))[case['variant']]
     if case.get('words'):
-        judge_words(acc, case['seed'], case['variant'], toks, case['mode'], set())
+        judge_words(acc, case['seed'], case['variant'], toks, case['mode'], SeenAll())
     else:
-        judge(acc, case['seed'], case['variant'], toks, case['pos'], case['marker'], case['mode'], set())
+        judge(acc, case['seed'], case['variant'], toks, case['pos'], case['marker'], case['mode'], SeenAll())
     return acc.viol
 
 
